@@ -71,7 +71,13 @@ def make_replay(pid, h, res):
            'replay': None, 'reproduced': False, 'witness_source': None,
            'replay_cmd': './check %s --replay %s' % (pid, path)}
     reproduced = False
-    if h.replay:
+    if h.kind == 'battery':
+        mo = re.match(r'REPRODUCED (.*?) ::', f.get('description', '') or '')
+        rec['replay'] = {'file': h.replay[0], 'mode': h.replay[1], 'args': ['--search'], 'rc': 1, 'output': f.get('description', ''),
+                         'search_args': mo.group(1).split() if mo else None}
+        rec['witness_source'] = 'native-search (bounded battery harness)'
+        reproduced = True
+    elif h.replay:
         src, mode = h.replay[0], h.replay[1]
         work, exe, cmdline = build_native(src, h.defines)
         if exe is None:
